@@ -67,8 +67,8 @@ def effectToBool : Eft → Except Err Bool
 /-- what the rule loop observes of a matcher result -/
 inductive MVal
   | bool (b : Bool)            -- `isinstance(result, bool)`
-  | float (nonzero : Bool)     -- `isinstance(result, float)`; `0 == result`
-  | other (truthy : Bool)      -- anything else (int, str, None …); truthiness is used by the empty-policy branch only
+  | float (nonzero : Bool)     -- `isinstance(result, (int, float))` (numeric); `0 == result`
+  | other (truthy : Bool)      -- anything else (str, None …); truthiness is used by the empty-policy branch only
   deriving DecidableEq, Repr, Inhabited
 
 def MVal.truthy : MVal → Bool
